@@ -459,7 +459,14 @@ func History(t *rapid.T, o HistOpt) *hist.History {
 			rotLeft--
 			fileNo++
 			between()
-			h.Units = append(h.Units, hist.Unit{Kind: hist.URotate, NextFile: fname(fileNo), TS: ck.tick(t)})
+			switch rapid.IntRange(0, 3).Draw(t, "rot_kind") {
+			case 0: // the file ends with a STOP event (clean shutdown), no rotate event
+				h.Units = append(h.Units, hist.Unit{Kind: hist.UFileEnd, NextFile: fname(fileNo), EvType: refenc.EvStop, TS: ck.tick(t)})
+			case 1: // the file just ends (crash)
+				h.Units = append(h.Units, hist.Unit{Kind: hist.UFileEnd, NextFile: fname(fileNo)})
+			default:
+				h.Units = append(h.Units, hist.Unit{Kind: hist.URotate, NextFile: fname(fileNo), TS: ck.tick(t)})
+			}
 			if gtidMode != 0 && rapid.Bool().Draw(t, "prev_after_rot") {
 				h.Units = append(h.Units, prevGTIDs())
 			}
